@@ -85,7 +85,7 @@ Proof.
   pose proof (start_rel c crit t0 off) as R0. rewrite E0 in R0. cbn [fst] in R0.
   rewrite run_app. pose proof (run_rel c crit Hcfg ops x0 None R0 Hb) as R1. pose proof (run_length ops x0) as L.
   destruct (run x0 ops) as [x1 obs1]. cbn [fst snd] in *.
-  pose proof (stop_rel c crit x1 _ R1) as S. cbn [run]. destruct (step x1 OStop) as [x2 ob2]. cbn [fst].
+  pose proof (stop_rel c crit x1 _ Hcfg R1) as S. cbn [run]. destruct (step x1 OStop) as [x2 ob2]. cbn [fst].
   exists (files_of (a_run None ops obs1)). split; [apply files_of_reads; exact S|].
   pose proof (a_run_flat ops None obs1 Hb L) as F. cbn [flat app] in F. rewrite <- F.
   destruct (a_run None ops obs1) as [[cl cu]|]; cbn [files_of flat concat]; [|reflexivity].
@@ -103,7 +103,7 @@ Proof.
   rewrite run_app. pose proof (run_rel c (CSize m) Hcfg ops x0 None R0 Hb) as R1.
   pose proof (run_size c m Hcfg ops x0 None R0 Hb) as [Hs _].
   destruct (run x0 ops) as [x1 obs1]. cbn [fst snd] in *.
-  pose proof (stop_rel c (CSize m) x1 _ R1) as S. cbn [run]. destruct (step x1 OStop) as [x2 ob2]. cbn [fst].
+  pose proof (stop_rel c (CSize m) x1 _ Hcfg R1) as S. cbn [run]. destruct (step x1 OStop) as [x2 ob2]. cbn [fst].
   rewrite <- s_run_none by assumption. rewrite <- Hs. apply files_of_reads. exact S.
 Qed.
 
